@@ -47,6 +47,63 @@ def fresh_call(w, sc, upto, only_history=False):
     return strip(r)
 
 
+def ann_below(fw, d1, p1, d2, p2):
+    """is the annotation of (d1, p1) at or below that of (d2, p2) by the documented subtype rule?"""
+    import typing
+
+    from fnlevel import py_subtype
+
+    t1, t2 = fw.glb[f"T_{d1['id']}_{p1}"], fw.glb[f"T_{d2['id']}_{p2}"]
+    t1 = type[object] if t1 is type else t1
+    t2 = type[object] if t2 is type else t2
+    o1, o2 = typing.get_origin(t1) is type, typing.get_origin(t2) is type
+    if o1 and o2:
+        return py_subtype(typing.get_args(t1)[0], typing.get_args(t2)[0])
+    if o1:
+        return issubclass(type, t2) if isinstance(t2, type) else False
+    if o2:
+        return False
+    try:
+        return issubclass(t1, t2)
+    except TypeError:
+        return None
+
+
+def doc_winner(sc, regs, pos, fw):
+    """C14, independent of the model: among the methods taking exactly these positional arguments and accepting
+    them by the documented rule, the one that beats all others (higher priority, or same priority and every
+    annotation at or below with one strictly below); None when there is no such method or the rule is silent"""
+    cands = []
+    if not regs:
+        return None  # nothing registered: the generated entry point takes no arguments at all
+    for i in regs:
+        d = sc["defs"][i]
+        pp = [p for p in d["params"]]
+        if any(p["kind"] == "ko" for p in pp) or len(pp) != len(pos) or not all(p["req"] for p in pp):
+            return None  # keep to the plain shape: all methods take exactly the given positionals
+        if all(fw.is_instance(fw.vals[v], d["id"], p["name"]) for p, v in zip(pp, pos)):
+            cands.append(d)
+    if not cands:
+        return ["nomethod"]
+
+    def beats(a, b):
+        if a["prio"] != b["prio"]:
+            return a["prio"] > b["prio"]
+        le = [ann_below(fw, a, pa["name"], b, pb["name"]) for pa, pb in zip(a["params"], b["params"])]
+        ge = [ann_below(fw, b, pb["name"], a, pa["name"]) for pa, pb in zip(a["params"], b["params"])]
+        if None in le or None in ge:
+            return None
+        return all(le) and not all(ge)
+
+    for a in cands:
+        bs = [beats(a, b) for b in cands if b is not a]
+        if None in bs:
+            return None
+        if all(bs):
+            return ["ran", a["id"]]
+    return None
+
+
 def doc_accepts(sc, regs, d, pos, kw, fw):
     """does definition `d` accept this call under the documented positional/keyword rules (docs/usage.md)?"""
     defs = [sc["defs"][i] for i in regs]
@@ -129,7 +186,27 @@ def worker(payload):
         e = o["known"].setdefault(key, {"count": 0, "witness": witness})
         e["count"] += 1
 
+    snap14 = [None]
+
+    def flush14():
+        """add to C14 what the three oracles recorded since the snapshot"""
+        if snap14[0] is None:
+            return
+        o14 = orc("C14")
+        for nm, (n0, nt0, v0, k0) in snap14[0].items():
+            o = orc(nm)
+            o14["n"] += o["n"] - n0
+            o14["nontrivial"] += o["nontrivial"] - nt0
+            o14["viol"] += o["viol"][v0:]
+            for k, v in o["known"].items():
+                d = v["count"] - k0.get(k, 0)
+                if d:
+                    e = o14["known"].setdefault(k, {"count": 0, "witness": v["witness"]})
+                    e["count"] += d
+        snap14[0] = None
+
     for i, (r, im) in enumerate(zip(res, impls)):
+        flush14()
         w, sc, fw = keep[i]
         desc = {"world": w.desc, "scenario": sc}
         if "error" in r:
@@ -146,7 +223,14 @@ def worker(payload):
                 ma["o"] = ["ambiguous"]
             stop_after = False
             predicted[0] = True
-            if ma != strip(b):
+            if opts.get("type_args") and op[0] == "call" and any(sc["args"][i]["kind"] == "type" for i in op[1]):
+                # at a position keyed by type(x) the real key of a passed type is its metaclass / alias class
+                # (type, ABCMeta, _ProtocolMeta, types.GenericAlias, typing._GenericAlias); the model has one class
+                # id for each of the two kinds, so resolve *counts* may differ: not compared here (C20 has its own)
+                ma.pop("nres", None)
+                b = {k: v for k, v in b.items() if k != "nres"}
+                b["nres"] = 0
+            if ma != {k: v for k, v in strip(b).items() if k in ma or k != "nres"}:
                 predicted[0] = False
                 out["corr"].append({"layer": "F", "op_index": j, "op": op, "model": ma, "impl": strip(b), "msg": b.get("msg"), "scenario": desc})
                 # the oracles below look at the real code only: evaluate them on this operation too, then stop
@@ -161,6 +245,22 @@ def worker(payload):
             seen_call = True
             ok = b["o"]
             bump("outcome:" + ok[0])
+            # C14: what C01 / C02 / C03 find on calls that pass a type-valued argument also counts for C14
+            if opts.get("type_args"):
+                flush14()
+                if any(sc["args"][i]["kind"] == "type" for i in op[1]) or any(sc["args"][i]["kind"] == "type" for _, i in op[2]):
+                    bump("calls with a type-valued argument")
+                    if not op[2] and len({x["id"] for x in (sc["defs"][t] for t in survivors(sc, j))}) == len(survivors(sc, j)):
+                        exp = doc_winner(sc, survivors(sc, j), op[1], fw)
+                        if exp is not None:
+                            o14 = orc("C14")
+                            o14["n"] += 1
+                            o14["nontrivial"] += exp[0] == "ran"
+                            first = b["raw"][0][0] if b.get("raw") else None
+                            got = ["ran", first] if first is not None else [b["o"][0]]
+                            if got != exp:
+                                o14["viol"].append({"law": "type-valued argument: the applicable method with the most specific type[...] annotation (or the highest priority) must run", "expected": exp, "got": got, "kind": "fn", "world": w.desc, "scenario": sc, "op_index": j})
+                    snap14[0] = {nm: (orc(nm)["n"], orc(nm)["nontrivial"], len(orc(nm)["viol"]), {k: v["count"] for k, v in orc(nm)["known"].items()}) for nm in ("C01", "C02", "C03")}
             regs = survivors(sc, j)
             wit = {"kind": "fn", "world": w.desc, "scenario": sc, "op_index": j, "impl": strip(b)}
             # ---------------- C01: every entered body got arguments its annotations accept
@@ -277,4 +377,5 @@ def worker(payload):
         if len(out["samples"]) < 2 and im:
             j = len(im) - 1
             out["samples"].append({"op": sc["ops"][j], "impl": strip(im[j]), "model": {k: v for k, v in r["ops"][j].items() if k in ("o", "t", "nres")}})
+    flush14()
     return out
